@@ -65,6 +65,10 @@ def value_strategy(name):
     lo, hi = RANGE[name]
     if t in ("u4", "i4", "i8"):
         return st.integers(int(lo), int(hi))
+    if name == "SynchrotronFrequency":
+        # 0 is legal and documented: "ignore, use alpha0" (round-3 seed C13c lives on an explicitly given zero)
+        fl = st.floats(lo, hi, allow_nan=False).map(lambda x: float(np.float32(x)))
+        return st.integers(0, 4).flatmap(lambda k: st.just(0.0) if k == 0 else fl)
     if t == "f4":
         return st.floats(lo, hi, allow_nan=False).map(lambda x: float(np.float32(x)))
     return st.floats(lo, hi, allow_nan=False)
